@@ -1,7 +1,7 @@
 (* Props/C13.v -- statements claimed for C13 (geometric measures), about Model/TriaGeom.v over R. *)
 From Coq Require Import List Arith Reals.
 From LaPyV Require Import Base.Scalar Base.Vec3 Base.ListAux Base.Sparse Model.TetMesh Model.TriaAdj Model.TriaOrient
-  Model.Fem Model.TriaGeom Proofs.SparseP Proofs.FemTriaP Proofs.TriaGeomP Proofs.TriaOrientP Proofs.TriaAdjP Proofs.InvarianceP Proofs.VolumeTransP Proofs.VolumeScaleP Proofs.NormalOffsetP Proofs.AreaInvarP.
+  Model.Fem Model.TriaGeom Proofs.SparseP Proofs.FemTriaP Proofs.TriaGeomP Proofs.TriaOrientP Proofs.TriaAdjP Proofs.InvarianceP Proofs.VolumeTransP Proofs.VolumeScaleP Proofs.QualityInvarP Proofs.NormalOffsetP Proofs.AreaInvarP.
 Import ListNotations.
 Open Scope R_scope.
 
@@ -146,3 +146,15 @@ Print Assumptions C13_volume_error_is_coordinate_independent.
 Example C13_volume_scale_rotation_example : tria_volume Rops (map (vscaleR 2) vt_v) vt_ts = Ok (2 * 2 * 2 * (1 / 6)) /\
   orthogonal quarter_z /\ det3 quarter_z = 1 /\ tria_volume Rops (map (rigid quarter_z (5, -3, 2)) vt_v) vt_ts = Ok (1 / 6).
 Proof. exact volume_scale_example. Qed.
+
+(* qualities: unchanged by every rigid motion (reflections included) and by uniform scaling with any s <> 0, for every mesh
+   (degenerate triangles included: the same quotient is formed) *)
+Theorem C13_qualities_invariant_under_rigid_motion : forall Q b v ts, orthogonal Q -> tris_in_range (length v) ts ->
+  tria_qualities Rops (map (rigid Q b) v) ts = tria_qualities Rops v ts.
+Proof. exact tria_qualities_rigid_invariant. Qed.
+Print Assumptions C13_qualities_invariant_under_rigid_motion.
+
+Theorem C13_qualities_invariant_under_scaling : forall s v ts, s <> 0 -> tris_in_range (length v) ts ->
+  tria_qualities Rops (map (vscaleR s) v) ts = tria_qualities Rops v ts.
+Proof. exact tria_qualities_scale_invariant. Qed.
+Print Assumptions C13_qualities_invariant_under_scaling.
